@@ -9,7 +9,7 @@ export GOFLAGS=-mod=mod GOPROXY=off GOSUMDB=off GOTOOLCHAIN=local
 ROOT="$(cd "$(dirname "$0")/.." && pwd)"
 PATCH="$(readlink -f "$1")"; shift
 TMP="$(mktemp -d /tmp/vselftest.XXXXXX)"
-trap 'rm -rf "$TMP"' EXIT
+trap 'pkill -f "$TMP/vcheck" 2>/dev/null; rm -rf "$TMP"' EXIT INT TERM
 mkdir -p "$TMP/repo" "$TMP/root"
 (cd /repo && git ls-files -z | xargs -0 cp --parents -t "$TMP/repo") || exit 2
 # include uncommitted working-tree state of tracked files (cp above copies the working tree)
